@@ -110,6 +110,7 @@ import os  # noqa: E402
 
 IDX = [int(x) for x in os.environ.get("VF_IDX", "0,1").split(",")]   # concrete lane/flag index per N line
 NI = len(IDX)
+EQSUS = os.environ.get("VF_EQSUS", "0") == "1"   # every N line carries the same (one symbolic) length
 
 
 def _groups(ticks):
@@ -151,7 +152,7 @@ def note_section(t0: int, t1: int, t2: int, t3: int,
     pre: tb > 0 and R >= 1 and sp_s >= 0 and sp_l >= 0
     post: _
     """
-    ticks, idx, sus = [t0, t1, t2, t3][:NI], IDX, [u0, u1, u2, u3][:NI]
+    ticks, idx, sus = [t0, t1, t2, t3][:NI], IDX, ([u0] * NI if EQSUS else [u0, u1, u2, u3][:NI])
     nlines = [K.N(ticks[k], idx[k], sus[k]) for k in range(NI)]
     others = [K.S(sp_s, sp_l), K.E(ticks[0], "solo"), K.GARBAGE(0)]
     lines = interleave(nlines, others, ORDER)
